@@ -17,6 +17,7 @@ package reclaimable
 //@   modifies queues[reclaimer.Queue].lastFairShare, queues[reclaimer.Queue].lastDeservedShare
 //@   ensures result == (withinFair(queues[reclaimer.Queue], reclaimer.RequiredResources) && (reclaimer.IsPreemptable || nonPreemptWithinDeserved(queues[reclaimer.Queue], reclaimer.RequiredResources)))
 //@   ensures rs.cacheOK(queues[reclaimer.Queue])
+//@   ensures [cachesKeptOrNew] strategies.cachesKeptOrNew(queues[reclaimer.Queue])
 //@ end
 
 // ratio allocated/fairShare with the documented edge cases (fair share 0 -> +Inf or 0, unlimited -> 0)
